@@ -237,7 +237,8 @@ def check_jitter(ctx):
         wrc = calls_named(f, "DictWriter")
         fnm = norm.kwarg(wrc[0], "fieldnames", 1) if wrc else None
         e = single_defs(f)
-        okf = fnm is not None and norm.U(norm.subst(fnm, e)) in ("reader.fieldnames",) and len(calls_named(f, "writeheader")) == 1
+        rdn = rl.iter.id if isinstance(rl.iter, ast.Name) else "reader"
+        okf = fnm is not None and norm.U(norm.subst(fnm, e)) == f"{rdn}.fieldnames" and len(calls_named(f, "writeheader")) == 1
         ctx.ob(6, "K3", "after sorting, every collected row of every pipeline is written, with the input's own columns and a header", okw and okf, f, wl[0] if wl else f.node,
                construct="write sorted pipelines", detail=f"write loops ok: {okw}; fieldnames from the reader: {okf}")
         # rows of a pipeline: first row starts the list, later rows appended
